@@ -9,6 +9,7 @@
   the dtype of the merged array is the dtype of the first piece visited (defect F4 is fixed).
 -/
 import FcModel.Mesh
+import FcModel.Merge
 namespace Fc.C06
 
 /-- `_locations_in(shape)`: all index tuples below `shape`, the FIRST index running fastest -/
@@ -235,11 +236,14 @@ def vtiMesh (U : Nat) (extent origin spacing : List Int) (basis : List (List Int
   ⟨(List.range 3).map fun i => extent.getD (2 * i + 1) 0 - extent.getD (2 * i) 0,
    imageShift U origin basis spacing ((List.range 3).map fun i => extent.getD (2 * i) 0), spacing, basis⟩
 
-/-- `min(e[2 * i] for e in piece_extents)` (`none` = `min()` of an empty sequence raises) -/
-def minLower (extents : List (List Int)) (i : Nat) : Option Int :=
-  match extents.map fun e => e.getD (2 * i) 0 with
+/-- Python `min(…)` (`none` = `min()` of an empty sequence raises) -/
+def listMin : List Int → Option Int
   | [] => none
   | x :: r => some (r.foldl min x)
+
+/-- `min(e[2 * i] for e in piece_extents)` -/
+def minLower (extents : List (List Int)) (i : Nat) : Option Int :=
+  listMin (extents.map fun e => e.getD (2 * i) 0)
 
 /-- `PVTIReader._make_structured_mesh` (since fix 110e1da): extents from the decomposition; origin,
     spacing and basis of the FIRST listed piece, the origin shifted by the lowest structured index of
@@ -253,6 +257,88 @@ def pvtiMesh (U : Nat) (sd : StructuredDecomposition) (extents : List (List Int)
     (`merger.merge_point_fields(lambda loc: piece_points[decomposition.domain_id(loc)])`) -/
 def pvtsPoints (extents : List (List Int)) (piecePoints : List (List (List Int))) : List (List Int) :=
   pvtkMergeField true extents piecePoints [0, 0, 0]
+
+/-! ### `_merge_structured`: the whole read of a structured parallel file
+
+  Arrays carry their dtype: the merged array is allocated with the dtype and entry shape of the
+  first piece the merger visits (fix a882a8e of finding F4). -/
+
+/-- rows of an array along axis 0 -/
+def arrRows (a : NdArr) : List (List Int) := (List.range (a.shape.headD 0)).map a.row
+
+/-- `StructuredFieldMerger._merge` on arrays (`mergeStructured` on their rows; values of a piece whose
+    dtype differs from the first piece's would be cast by numpy: not modelled, outside the hypothesis) -/
+def mergeStructuredArr (isPoint : Bool) (d : List (List Nat)) (cb : List Nat → NdArr) : NdArr :=
+  let first := cb ((locationsIn (piecesShape d)).headD [])
+  ⟨first.dtype, prodShape (mergedShape isPoint d) :: first.shape.tail,
+   (mergeStructured isPoint d (fun loc => arrRows (cb loc)) (List.replicate first.rowSize 0)).flatten⟩
+
+def emptyArr : NdArr := ⟨.flt f64, [0], []⟩
+
+/-- one field of `_merge_point_fields` / `_merge_cell_fields`: `vals` = the field's array of every
+    piece in listing order -/
+def pvtkMergeArr (isPoint : Bool) (extents : List (List Int)) (vals : List NdArr) : NdArr :=
+  let sd := structuredDecomposition extents
+  mergeStructuredArr isPoint sd.mergerDecomposition fun loc => vals.getD (sd.domainId loc) emptyArr
+
+/-- `_merge_point_fields` / `_merge_cell_fields`: names collected over all pieces (a Python `set`:
+    the model lists them by first occurrence, observables are compared by name), per name the arrays
+    of the pieces that carry it, in listing order -/
+def pvtkMergeFields (isPoint : Bool) (extents : List (List Int)) (pieceFields : List (List (String × NdArr))) :
+    List (String × NdArr) :=
+  (dedupNames (pieceFields.flatMap fun fs => fs.map (·.1))).map fun n =>
+    (n, pvtkMergeArr isPoint extents (pieceFields.filterMap fun fs => (fs.find? (·.1 == n)).map (·.2)))
+
+/-- geometry carried by a `.vti` / `.vtr` / `.vts` file: attributes `Origin`, `Spacing`, `Direction`;
+    the three `<Coordinates>` arrays; the `<Points>` rows (x running fastest) -/
+inductive SGeom where
+  | image (origin spacing : List Int) (basis : List (List Int))
+  | rect (ords : List (List Int))
+  | struct (pts : List (List Int))
+deriving Repr, DecidableEq
+
+/-- a sequential structured file (one `<Piece>`): `Extent`, geometry, data arrays by name -/
+structure SFile where
+  extent : List Int
+  geom : SGeom
+  pointFields : List (String × NdArr)
+  cellFields : List (String × NdArr)
+deriving Repr, DecidableEq
+
+/-- the mesh object a structured reader builds -/
+inductive SMesh where
+  | image (g : ImageGrid)
+  | rect (extents : List Int) (ords : List (List Int))
+  | struct (extents : List Int) (pts : List (List Int))
+deriving Repr, DecidableEq
+
+structure SRead where
+  mesh : SMesh
+  pointFields : List (String × NdArr)
+  cellFields : List (String × NdArr)
+deriving Repr, DecidableEq
+
+def SGeom.ords : SGeom → List (List Int)
+  | .rect o => o
+  | _ => []
+
+def SGeom.pts : SGeom → List (List Int)
+  | .struct p => p
+  | _ => []
+
+/-- `_PVTKReader._merge_structured` on the listed piece files (`none` = the reader raises) -/
+def pvtkReadStructured (U : Nat) (pieces : List SFile) : Option SRead :=
+  let extents := pieces.map (·.extent)
+  let sd := structuredDecomposition extents
+  let pf := pvtkMergeFields true extents (pieces.map (·.pointFields))
+  let cf := pvtkMergeFields false extents (pieces.map (·.cellFields))
+  match pieces.head? with
+  | none => none
+  | some first =>
+    match first.geom with
+    | .image O S B => (pvtiMesh U sd extents O S B).map fun g => ⟨.image g, pf, cf⟩
+    | .rect _ => (pvtrOrdinates sd (pieces.map (·.geom.ords))).map fun o => ⟨.rect sd.mergedExtents o, pf, cf⟩
+    | .struct _ => some ⟨.struct sd.mergedExtents (pvtsPoints extents (pieces.map (·.geom.pts))), pf, cf⟩
 
 /-! ### what an axis-aligned decomposition looks like (used by spec and generators) -/
 
